@@ -169,4 +169,16 @@ theorem replay_not_admitted_violated :
     holdsOf (reload 2 j) = [(1, 2, some 102)] ∧
     classifyReplay 2 j = [((0, 100), ReplayClass.notAdmitted)] := by decide
 
+/-! ### Non-vacuity of the hypotheses of `reload_single_agrees` / `reload_one_record_per_key` -/
+
+example : L1.isLock = true ∧ skippedAt L1.eflag L1.stored L1.ct.toNat 6 = false ∧ loadRemaining L1.eflag L1.stored L1.ct 6 > 0 := by decide
+
+example : (∀ r ∈ [L1, { L1 with key := 101 }], LiveLock 6 r) ∧
+    [L1, { L1 with key := 101 }].Pairwise (fun a b => ¬ (a.db = b.db ∧ a.key = b.key)) := by
+  constructor
+  · intro r hr
+    simp at hr
+    rcases hr with rfl | rfl <;> (unfold LiveLock; decide)
+  · simp [L1]
+
 end Slock.C07J
